@@ -179,16 +179,6 @@ Definition try_send (nt : net) (s : state) (c : nat) (it : item) : sendres :=
                           c_filt := c_filt x; c_fail := c_fail x; c_disc := S (c_disc x) |})
   else Blocked.
 
-(* the main goroutine's copy to a root is a plain blocking send (executor.go:184): no discard *)
-Definition try_send_root (nt : net) (s : state) (c : nat) (it : item) : sendres :=
-  let x := node s c in
-  if closed x then SendPanic
-  else if length (q x) <? ncap (info nt c) then
-    Sent (set_node s c {| q := q x ++ [it]; closed := closed x; ws := ws x; once := once x; inflight := inflight x;
-                          offered := it :: offered x; dropped := dropped x; c_recv := c_recv x; c_proc := c_proc x;
-                          c_filt := c_filt x; c_fail := c_fail x; c_disc := c_disc x |})
-  else Blocked.
-
 (* handleResult: which deliveries follow from an outcome at node n for input it *)
 Definition deliveries (nt : net) (n : nat) (it : item) (o : outcome) : list (nat * item) :=
   match o with
@@ -238,7 +228,7 @@ Inductive action :=
 | SrcReturnErr             (* Start() returns an error *)
 | SrcRestart               (* after the pause: new instance, Init, Setup, Start *)
 (* main goroutine (Execute) *)
-| MainSend                 (* rootNode.Ch <- sourceEvent for the next root *)
+| MainSend                 (* copy of the source event to the next root: same discard-or-block rule as deliverToChild *)
 | MainSeeClosed            (* receives !ok from sourceCh *)
 | MainCloseRoots
 | MainWgDone               (* waitTimeout: all workers returned *)
@@ -298,7 +288,7 @@ Definition step (nt : net) (T : nat) (s : state) (a : action) : result :=
   | MainSend =>
       match mn s with
       | MDeliver it (r :: rs) =>
-          match try_send_root nt s r it with
+          match try_send nt s r it with
           | Sent s' => Ok (set_mn s' (match rs with [] => MSelect | _ => MDeliver it rs end))
           | Blocked => NotEnabled
           | SendPanic => Panic
